@@ -148,6 +148,27 @@ theorem ctlEventsOf_spec (cfg : Cfg) (hlex : LexCfg cfg) (settings : Settings) (
   rw [dif_pos h]
   exact Classical.choose_spec h
 
+/-- **Full_events_end (G1, the last parse of `end`).** `end()` parses what is buffered with `last = true`
+(EOF lexeme, pending text) before `handle_end`; if that parse succeeds, the controller state `handle_end` starts
+from is again reached by a well-formed event list and satisfies `J2`. -/
+theorem Full_events_end (cfg : Cfg) (hlex : LexCfg cfg) (settings : Settings) (chunks : List Bytes)
+    (hok : ∀ x ∈ (writeAll (genWorld cfg) (Rewriter.new (genWorld cfg) (FullSt.init cfg) settings) chunks).2,
+      x = CallRes.ok) (inp : Bytes) (k : Nat)
+    (hp : ((afterWrites cfg settings chunks).stream.parser.parse (genWorld cfg).env inp true).2 = .ok k) :
+    KD3 cfg ((afterWrites cfg settings chunks).stream.parser.parse (genWorld cfg).env inp true).1.x.sink := by
+  have hnp : (afterWrites cfg settings chunks).poisoned = false :=
+    writeAll_ok_not_poisoned _ chunks _ rfl hok
+  rcases Full_events_writes_inv cfg hlex settings chunks with h | h
+  · rw [hnp] at h; cases h
+  · have hL := fullCtl_lexE3 cfg hlex
+    rcases LexE.parse_lexE (tbl := (genWorld cfg).tbl) (cfg := (genWorld cfg).tags) (hL.ops inp)
+        C03.C03_emitsChecked_gen true (afterWrites cfg settings chunks).stream.parser h with ⟨_, hpl⟩ | ⟨e, _, he⟩
+    · exact (hpl k hp).2.2.1
+    · have he' : ((afterWrites cfg settings chunks).stream.parser.parse (genWorld cfg).env inp true).2 =
+          .error (RelE.parseErr e) := he
+      rw [he'] at hp
+      cases hp
+
 /-! ## G2 — the selector VM along the event list: `Vm.runAux`, CSS matching -/
 
 /-- the tag event package selvm sees -/
